@@ -37,6 +37,15 @@ class ExprMixin:
     def safe(self, path, what, goal, node):
         self.oblige(path, "safe:" + what, goal, node)
 
+    def definite_error(self, path, what, node, msg=""):
+        """the operation raises an implicit exception on every execution of this path: the obligation
+        `unreachable` is emitted and the path ends here"""
+        from .path import DeadPath
+
+        self.oblige(path, "safe:" + what, z3.BoolVal(False), node, note=msg, assume=False)
+        self.ended_paths.append(path)
+        raise DeadPath()
+
     # ------------------------------------------------------------------ entry
     def eval(self, e, path):
         m = getattr(self, "_e_" + e.__class__.__name__, None)
@@ -313,8 +322,7 @@ class ExprMixin:
         try:
             return self._binop(op, a, b, path, node)
         except _TypeErr:
-            self.safe(path, "type", z3.BoolVal(False), node)
-            raise Unsupported(f"type error in {ast.unparse(node)}: {a} {op.__class__.__name__} {b}", node)
+            self.definite_error(path, "type", node, f"type error in {ast.unparse(node)}")
 
     def _binop(self, op, a, b, path, node):
         A, B = a.__class__, b.__class__
@@ -463,8 +471,7 @@ class ExprMixin:
         try:
             return self._order(o, a, b, node)
         except _TypeErr:
-            self.safe(path, "type", z3.BoolVal(False), node)
-            raise Unsupported(f"type error in comparison {ast.unparse(node)}", node)
+            self.definite_error(path, "type", node, f"type error in comparison {ast.unparse(node)}")
 
     def _order(self, o, a, b, node):
         A, B = a.__class__, b.__class__
